@@ -126,6 +126,13 @@ def obligations(r, tier, seed):
                       funcs=FUNCS, solver="constrained", light=not has_se3(shape), tags=("real-edges",) if real else (),
                       eager=(real and has_se3(shape))))
 
+    # ---- a ternary edge in every vertex order meeting a binary edge on the pair of free vertices
+    for shape in graphs.ternary_overlap_family(tier):
+        def ob_t(k, shape=shape):
+            run_one_iteration(k, shape)
+        obs.append(Ob("C03/gauss-newton-step/ternary-overlap/%s" % shape["name"], ob_t, scope="shape-bounded", bound="shape " + shape["name"],
+                      funcs=FUNCS, solver="constrained", light=True))
+
     # ---- histories: the step of a LATER optimize() call on the same Graph object is the Gauss-Newton step for the vertices marked
     #      fixed at that moment (nothing about the linear system survives from an earlier call)
     def set_marks(*marked):
